@@ -59,12 +59,17 @@ def defaults_class(params, overrides):
     """params: list of (name, has_default, default); required ones first."""
     sig = ', '.join(f'{n}=None' if h else n for n, h, _ in params)
     ns = {}
-    exec(f'class _D:\n    def __init__(self, {sig}):\n        pass\n', ns)
+    exec(f'class _B:\n    pass\nclass _D(_B):\n    def __init__(self, {sig}):\n        pass\n', ns)
     cls = ns['_D']
     cls.__init__.__defaults__ = tuple(d for _, h, d in params if h) or None
     if overrides is not None:
-        cls._yatiml_defaults = dict(overrides)
+        # every other time the user-declared defaults sit on a base class (a mix-in) and are inherited
+        _DEFAULTS_COUNTER[0] += 1
+        (ns['_B'] if _DEFAULTS_COUNTER[0] % 2 else cls)._yatiml_defaults = dict(overrides)
     return cls
+
+
+_DEFAULTS_COUNTER = [0]
 
 
 def op_term(op):
